@@ -98,4 +98,209 @@ theorem queueFd_spec (s : St) (fd : Fd) (ok : Bool)
       · simp [qlist, take_set_succ _ _ _ hlt]
 
 
+theorem perm_snoc_a {l a b c : List Fd} (x : Fd) (h : l.Perm (a ++ b ++ c)) :
+    (l ++ [x]).Perm (a ++ [x] ++ b ++ c) := by
+  rw [List.perm_iff_count] at *
+  intro y; have := h y
+  simp only [List.count_append, List.count_cons, List.count_nil] at *
+  split <;> omega
+
+theorem inv_iff (s : St) : Inv s ↔
+  (s.fault = false ∧ (s.acceptedFd = none → s.queued = none) ∧ (∀ q, s.queued = some q → QInv q) ∧
+   (s.role = .listen → s.queued = none) ∧ (s.admitted = s.taken.map (·.1) ++ pending s ++ s.byClose) ∧
+   (List.Perm s.arrived (s.admitted ++ s.dropped ++ s.shed)) ∧
+   (s.closed = true → s.acceptedFd = none ∧ s.pollin = false) ∧ (s.closed = false → s.byClose = []) ∧
+   (s.role = .ipc → s.inCb = false) ∧ (s.role = .listen → s.closed = false → s.inCb = true → s.pollin = true) ∧
+   (s.role = .listen → s.closed = false → s.inCb = false →
+    (s.acceptedFd.isSome → s.pollin = false) ∧ (s.acceptedFd = none → s.stuck = false → s.pollin = true))) :=
+  ⟨fun h => ⟨h.1, h.2, h.3, h.4, h.5, h.6, h.7, h.8, h.9, h.10, h.11⟩,
+   fun ⟨h1,h2,h3,h4,h5,h6,h7,h8,h9,h10,h11⟩ => ⟨h1,h2,h3,h4,h5,h6,h7,h8,h9,h10,h11⟩⟩
+
+theorem inv_close (s : St) (h : Inv s) : Inv (close s) := by
+  rw [inv_iff] at *
+  unfold close
+  rcases s with ⟨role, ipc, acc, q, pollin, inCb, closed, spare, fault, stuck, arrived, admitted, taken, byClose, dropped, shed⟩
+  simp only [pending] at *
+  obtain ⟨h1,h2,h3,h4,h5,h6,h7,h8,h9,h10,h11⟩ := h
+  subst h5
+  cases closed <;> cases role <;> simp_all [qlist]
+
+theorem inv_ioEnd (s : St) (h : Inv s) : Inv (ioEnd s) := by
+  rw [inv_iff] at *
+  unfold ioEnd
+  rcases s with ⟨role, ipc, acc, q, pollin, inCb, closed, spare, fault, stuck, arrived, admitted, taken, byClose, dropped, shed⟩
+  simp only [pending] at *
+  obtain ⟨h1,h2,h3,h4,h5,h6,h7,h8,h9,h10,h11⟩ := h
+  subst h5
+  cases inCb <;> cases role <;> cases acc <;> cases closed <;> simp_all [qlist]
+
+theorem perm_snoc_b {l a b c : List Fd} (x : Fd) (h : l.Perm (a ++ b ++ c)) :
+    (l ++ [x]).Perm (a ++ (b ++ [x]) ++ c) := by
+  rw [List.perm_iff_count] at *
+  intro y; have := h y
+  simp only [List.count_append, List.count_cons, List.count_nil] at *
+  split <;> omega
+
+theorem perm_app_c {l a b c : List Fd} (t : List Fd) (h : l.Perm (a ++ b ++ c)) :
+    (l ++ t).Perm (a ++ b ++ (c ++ t)) := by
+  rw [List.perm_iff_count] at *
+  intro y; have := h y
+  simp only [List.count_append] at *
+  omega
+
+theorem inv_ioBegin (s : St) (r : AcceptRes) (t : Trick) (h : Inv s) : Inv (ioBegin s r t) := by
+  rw [inv_iff] at *
+  unfold ioBegin
+  rcases s with ⟨role, ipc, acc, q, pollin, inCb, closed, spare, fault, stuck, arrived, admitted, taken, byClose, dropped, shed⟩
+  simp only [pending] at *
+  obtain ⟨h1,h2,h3,h4,h5,h6,h7,h8,h9,h10,h11⟩ := h
+  subst h5
+  cases role <;> cases closed <;> cases pollin <;> cases inCb <;> simp_all [qlist]
+  -- remaining: listen, open, armed, outside callback
+  cases r with
+  | ok fd =>
+    simp
+    have := perm_snoc_a (a := List.map (fun x => x.fst) taken) fd (by simpa [List.append_assoc] using h6)
+    simpa [List.append_assoc] using this
+  | err e =>
+    simp
+    split
+    · split
+      · simp_all
+      · have := perm_app_c (a := List.map (fun x => x.fst) taken) t.shedFds (by simpa [List.append_assoc] using h6)
+        simp_all [List.append_assoc]
+    · simp_all
+
+theorem take_one_headD {α} (l : List α) (d : α) (h : 1 ≤ l.length) : [l.headD d] = l.take 1 := by
+  cases l with
+  | nil => simp at h
+  | cons a t => simp
+
+theorem inv_uvAccept (s : St) (c : ClientTy) (e : Int) (h : Inv s) : Inv (uvAccept s c e).1 := by
+  rw [inv_iff] at *
+  unfold uvAccept
+  rcases s with ⟨role, ipc, acc, q, pollin, inCb, closed, spare, fault, stuck, arrived, admitted, taken, byClose, dropped, shed⟩
+  simp only [pending] at *
+  obtain ⟨h1,h2,h3,h4,h5,h6,h7,h8,h9,h10,h11⟩ := h
+  subst h5
+  cases acc with
+  | none => simp_all [qlist]
+  | some fd =>
+    by_cases hc : c = .other
+    · simp_all [qlist]
+    · cases q with
+      | none =>
+        cases role <;> cases closed <;> cases inCb <;> simp_all [qlist]
+      | some q =>
+        have hi := h3 q rfl
+        have hpos := hi.pos; have hle := hi.le; have hsz := hi.sz
+        have hne : q.fds.isEmpty = false := by
+          cases hf : q.fds with
+          | nil => simp [hf] at hle; omega
+          | cons a t => simp
+        have hoff : (q.offset == 0) = false := by simp; omega
+        by_cases h1' : q.offset - 1 = 0
+        · have hone : q.offset = 1 := by omega
+          have := take_one_headD q.fds default (by omega)
+          cases role <;> cases closed <;> simp_all [qlist]
+        · have hsh := shift_take q.fds default q.offset hpos hle
+          have hlen := shift_length q.fds (q.offset - 1) (by omega)
+          have hb : (decide (q.offset - 1 + 1 ≤ q.fds.length)) = true := by simp; omega
+          cases role <;> cases closed <;> simp_all [qlist]
+          all_goals (first | (constructor <;> simp_all <;> omega) | skip)
+
+
+macro "perm_count" h:ident : tactic => `(tactic| (
+  rw [List.perm_iff_count] at $h:ident ⊢; intro y; have := $h:ident y;
+  simp only [List.count_append, List.count_cons, List.count_nil, List.append_assoc, Option.toList] at *;
+  (try split) <;> omega))
+
+theorem inv_admitFirst (s : St) (fd : Fd) (h : Inv s) (hr : s.role = .ipc) (hc : s.closed = false)
+    (ha : s.acceptedFd = none) :
+    Inv { s with arrived := s.arrived ++ [fd], acceptedFd := some fd, admitted := s.admitted ++ [fd] } := by
+  rw [inv_iff] at *
+  rcases s with ⟨role, ipc, acc, q, pollin, inCb, closed, spare, fault, stuck, arrived, admitted, taken, byClose, dropped, shed⟩
+  simp only [pending] at *
+  obtain ⟨h1,h2,h3,h4,h5,h6,h7,h8,h9,h10,h11⟩ := h
+  subst h5
+  simp_all [qlist]
+  perm_count h6
+
+theorem inv_enqueue (s : St) (fd : Fd) (q' : Queue) (h : Inv s) (hr : s.role = .ipc) (hc : s.closed = false)
+    (ha : s.acceptedFd.isSome = true) (hq : QInv q') (hl : qlist (some q') = qlist s.queued ++ [fd]) :
+    Inv { s with arrived := s.arrived ++ [fd], queued := some q', admitted := s.admitted ++ [fd] } := by
+  rw [inv_iff] at *
+  rcases s with ⟨role, ipc, acc, q, pollin, inCb, closed, spare, fault, stuck, arrived, admitted, taken, byClose, dropped, shed⟩
+  simp only [pending] at *
+  obtain ⟨h1,h2,h3,h4,h5,h6,h7,h8,h9,h10,h11⟩ := h
+  subst h5
+  cases acc with
+  | none => simp at ha
+  | some a =>
+    simp_all
+    perm_count h6
+
+theorem inv_drop (s : St) (fd : Fd) (h : Inv s) :
+    Inv { s with arrived := s.arrived ++ [fd], dropped := s.dropped ++ [fd] } := by
+  rw [inv_iff] at *
+  rcases s with ⟨role, ipc, acc, q, pollin, inCb, closed, spare, fault, stuck, arrived, admitted, taken, byClose, dropped, shed⟩
+  simp only [pending] at *
+  obtain ⟨h1,h2,h3,h4,h5,h6,h7,h8,h9,h10,h11⟩ := h
+  subst h5
+  simp_all
+  perm_count h6
+
+theorem inv_recvLoop (fds : List Fd) : ∀ (s : St) (err : Int) (n : Nat) (f : Option Nat),
+    Inv s → s.role = .ipc → s.closed = false →
+    Inv (recvLoop s err n f fds).1 ∧ (recvLoop s err n f fds).1.role = .ipc := by
+  induction fds with
+  | nil => intro s err n f h hr hc; simp [recvLoop, h, hr]
+  | cons fd rest ih =>
+    intro s err n f h hr hc
+    simp only [recvLoop]
+    by_cases he : (err == 0) = true
+    · simp only [he, if_true]
+      have hq1 : ∀ q, ({ s with arrived := s.arrived ++ [fd] } : St).queued = some q → QInv q := h.qinv
+      have spec := queueFd_spec { s with arrived := s.arrived ++ [fd] } fd (f != some n) hq1
+      generalize queueFd { s with arrived := s.arrived ++ [fd] } fd (f != some n) = res at spec ⊢
+      obtain ⟨s', e, al⟩ := res
+      cases ha : s.acceptedFd with
+      | none =>
+        simp only []
+        exact ih _ _ _ _ (inv_admitFirst s fd h hr hc ha) hr hc
+      | some a =>
+        simp only []
+        rcases spec with ⟨q', hq', e1, e2, e3⟩ | ⟨e1, e2⟩
+        · dsimp only at e1 e2
+          subst e1 e2
+          simp only [show ((0 : Int) == 0) = true from rfl, if_true]
+          exact ih _ _ _ _ (inv_enqueue s fd q' h hr hc (by simp [ha]) hq' e3) hr hc
+        · dsimp only at e1 e2
+          subst e1 e2
+          simp only [show (ENOMEM == (0 : Int)) = false from rfl]
+          exact ih _ _ _ _ (inv_drop s fd h) hr hc
+    · simp only [he]
+      exact ih _ _ _ _ (inv_drop s fd h) hr hc
+
+theorem inv_recv (s : St) (fds : List Fd) (f : Option Nat) (h : Inv s) : Inv (recv s fds f).1 := by
+  unfold recv
+  split
+  · exact h
+  · rename_i hg
+    simp at hg
+    exact (inv_recvLoop fds s 0 0 f h hg.1 hg.2).1
+
+theorem inv_step (s : St) (op : Op) (h : Inv s) : Inv (step s op) := by
+  cases op with
+  | ioBegin r t => exact inv_ioBegin s r t h
+  | ioEnd => exact inv_ioEnd s h
+  | accept c e => exact inv_uvAccept s c e h
+  | recv fds f => exact inv_recv s fds f h
+  | close => exact inv_close s h
+
+theorem inv_run (ops : List Op) : ∀ s, Inv s → Inv (run s ops) := by
+  induction ops with
+  | nil => intro s h; exact h
+  | cons op rest ih => intro s h; exact ih _ (inv_step s op h)
+
 end UvModel.Accept
